@@ -148,6 +148,22 @@ func init() {
 			"the Visitor's traversal (which nested types it reaches) is assumed, not verified",
 		},
 	}
+	propSpecs["C06"] = &PropSpec{
+		ID: "C06",
+		Patterns: []string{"./internal/ast", "./internal/ast/compiler", "./internal/orderedmap", "./internal/tools",
+			"./internal/jennies/golang", "./internal/jennies/java", "./internal/jennies/php", "./internal/jennies/python", "./internal/jennies/typescript"},
+		Level:   "proof",
+		Prepare: func(e *Engine) { e.assumeKindInv = true },
+		Opts: func(e *Engine, key string) VerifyOpts {
+			return VerifyOpts{OnlyKinds: []string{"pre", "post", "frame", "inv-init", "inv-pres", "cover"}}
+		},
+		Extra: func(e *Engine, tier string) []*FuncResult { return []*FuncResult{e.chainResult()} },
+		Assumptions: []string{
+			"scope (1), chain level: for each language the rewrite that establishes each normal form named by the property is in Language.CompilerPasses(), after the passes that can create the construct it removes, and (Go, Java) nothing that can create a union follows DisjunctionToType; the chains are read from go/ssa, the obligations are discharged by the generator (not SMT)",
+			"scope (2), pass level: local postconditions of not_required_as_nullable (a non-required field comes back nullable), disjunction_with_null_to_optional (a two-branch T|null union comes back as T made nullable, other unions unchanged), prefix_enum_values (types and values of members kept), with Types.HasNullType / NonNullTypes under contract",
+			"NOT proved: that each pass reaches every nested occurrence (arrays, maps, union branches, struct fields): the recursive traversal of the shared Visitor is assumed; deep `anywhere in the IR` normal forms need recursive predicates over type trees, which this engine does not have; DisjunctionToType, AnonymousStructsToNamed, AnonymousEnumToExplicitType, the identifier rules of enum member names (string theory), and objects created by earlier passes are not under contract",
+		},
+	}
 	propSpecs["C03"] = &PropSpec{
 		ID:       "C03",
 		Patterns: []string{"./..."},
